@@ -114,7 +114,7 @@ ENTITIES = {
     "ma/shape_t": "type", "mb/shape_t": "type", "ma/counter": "var", "mb/counter": "var", "ma/shape_t/area": "comp",
     "mb/shape_t/area": "comp", "ma/shape_t/draw": "bound", "mb/shape_t/draw": "bound", "ma/cb_iface": "absint",
     "ma/gen_a": "generic", "main_prog": "program", "ext_sub": "sub", "bdat": "block", "nl_cfg": "namelist",
-    "ma.f90": "file", "mb.f90": "file", "main.f90": "file",
+    "ma.f90": "file", "mb.f90": "file", "main.f90": "file", "build.sh": "file",
 }
 CONTEXTS = ["ma", "mb", "ma/counter", "ma/shape_t", "ma/shape_t/area", "ma/helper", "mb/helper", "mb/shape_t",
             "main_prog", "PROJECT", "PAGE0", "PAGE1", "PAGE2"]
@@ -130,11 +130,12 @@ def gen_reference(ch, ctx):
     form = ch.weighted([(4, "unique"), (3, "qualified"), (4, "scoped"), (4, "child"), (2, "absent"), (1, "hidden"), (2, "code")])
     flags = set([form])
     if form == "unique":
-        key = ch.choice(["ma/fa_only", "mb/fb_only", "main_prog", "ext_sub", "ma", "mb", "ma/cb_iface", "bdat", "nl_cfg"])
+        key = ch.choice(["ma/fa_only", "mb/fb_only", "main_prog", "ext_sub", "ma", "mb", "ma/cb_iface", "bdat", "nl_cfg",
+                         "build.sh", "mb.f90"])
         return f"[[{key.split('/')[-1]}]]", [key], flags
     if form == "qualified":
         key = ch.choice(["ma/fa_only", "mb/fb_only", "main_prog", "ext_sub", "ma", "mb", "ma/cb_iface", "bdat", "nl_cfg",
-                         "ma.f90", "main.f90"])
+                         "ma.f90", "main.f90", "build.sh"])
         kind = ENTITIES[key]
         q = ch.choice(KIND_SYNONYMS[kind])
         if ch.bool(1, 4):
@@ -223,12 +224,14 @@ def gen_case(ch: Chooser, excl=()):
             feats |= flags
     files = {"src/ma.f90": module_src("ma", "mb", docs), "src/mb.f90": module_src("mb", "ma", docs),
              "src/main.f90": MAIN.format(doc="".join(f"  !! {l}\n" for l in docs.get("main_prog", [])))}
+    files["src/build.sh"] = "#!/bin/sh\n#! A build script (non-Fortran source file)\necho build\n"
     page = lambda title, key: f"---\ntitle: {title}\n---\n\n" + "\n".join(docs.get(key, [])) + "\n"
     files["pages/index.md"] = page("Top", "PAGE0")
     files["pages/sub/index.md"] = page("Sub", "PAGE1")
     files["pages/sub/deep/index.md"] = page("Deep", "PAGE2")
     options = {"project": "P", "src_dir": "./src", "output_dir": "./doc", "page_dir": "./pages", "preprocess": False,
-               "parallel": 0, "search": False, "display": ["public", "protected"], "proc_internals": ch.bool()}
+               "parallel": 0, "search": False, "display": ["public", "protected"], "proc_internals": ch.bool(),
+               "extra_filetypes": "sh #"}
     files["project.md"] = site.project_file(options, "\n".join(docs.get("PROJECT", [])) + "\n")
     nt = any(("multi-level" in r["flags"] or "qualified" in r["flags"]) for r in refs)
     return {"files": files, "options": options, "refs": refs, "classes": sorted(feats), "nontrivial": nt}
@@ -241,8 +244,8 @@ def strategy(tier, excl):
 
 def find_entity(project, key):
     parts = key.split("/")
-    if key.endswith(".f90"):
-        return next((f for f in project.files if f.name == key), None)
+    if key.endswith((".f90", ".sh")):
+        return next((f for f in project.allfiles if f.name == key), None)
     top = parts[0]
     for coll in (project.modules, project.programs, project.procedures, project.blockdata, project.namelists):
         for e in coll:
